@@ -17,6 +17,7 @@ import Ldap3V.Lemmas.FilterDialect
 import Ldap3V.Lemmas.GenPureFeed
 import Ldap3V.Lemmas.FilterShape
 import Ldap3V.Lemmas.FilterNesting
+import Ldap3V.Lemmas.GenLoop
 namespace Ldap3V
 open Spec.Filter
 open Spec (Filter)
@@ -355,5 +356,20 @@ example : Gen.unescaper_feed .WantFirst 0x34 = some (.WantSecond 4) ∧
     Gen.unescaper_feed (.WantSecond 4) 0x31 = some (.Value 0x41) ∧
     Gen.unescaper_feed .WantFirst 0x67 = some .Error ∧ Gen.filter_is_value_char 0x2A = some false := by decide
 
+
+/-- the nesting guard (`nesting_within_limit`, the repair of F28) as written in src/filter.rs today — a `for`
+loop over the octets with a `usize` counter, an early `return false` and `saturating_sub`, REGENERATED by
+translate/loop_fns.py on every run — never panics and is the model's guard on every input: it answers
+`true` exactly for the strings nested at most `Filter.maxNesting` = 128 deep. -/
+theorem C08_guard_source (s : Bytes) :
+    Gen.filter_nesting_within_limit s = some (Filter.nestingWithinLimit s) ∧
+    (Gen.filter_nesting_within_limit s = some true ↔ Filter.nest 0 s ≤ Filter.maxNesting) := by
+  refine ⟨Filter.gen_nesting_within_limit s, ?_⟩
+  rw [Filter.gen_nesting_within_limit s, ← Filter.nestingWithinLimit_iff]
+  simp
+
+example : Gen.filter_nesting_within_limit [0x28, 0x26, 0x28, 0x61, 0x3D, 0x62, 0x29, 0x29] = some true ∧
+    Gen.filter_nesting_within_limit_step 128 0x28 = some (.ret false) ∧
+    Gen.filter_nesting_within_limit_step 0 0x29 = some (.next 0) := by decide
 
 end Ldap3V
